@@ -37,6 +37,7 @@ structure TDef where
   targets : List Name := []
   rx : Option GId := none          -- `loader.regex_groups.get(task.name)`
   isRx : Bool := false             -- `task.name.startswith('_regex_target')`
+  act : Bool := false              -- has an action (its start is observable); not read by the transition system
   oid : Nat := 0
 deriving Repr, Inhabited, DecidableEq
 
@@ -46,6 +47,7 @@ structure NewTask where
   deps : List Name := []
   fileDep : List Name := []
   targets : List Name := []
+  act : Bool := true
 deriving Repr, Inhabited, DecidableEq
 
 inductive Err | cyclic | notFound (x : Name) | dupTarget | crash
@@ -234,7 +236,7 @@ def targetPairs (new : List NewTask) : List (Name × Name) :=
 
 def newDef (targets : Name → Option Name) (oid : Nat) (nt : NewTask) : TDef :=
   { deps := implicitDeps targets nt.deps nt.fileDep, loader := none, fileDep := nt.fileDep, targets := nt.targets,
-    oid := oid }
+    act := nt.act, oid := oid }
 
 /-- `for nt in new_tasks: self.tasks[nt.name] = nt` -/
 def insertNew (targets : Name → Option Name) : Nat → (Name → Option TDef) → List NewTask → (Name → Option TDef)
@@ -439,7 +441,8 @@ def runWith (inp : Input) (s : Sys) : List Choice → Option Sys
 /-- exit code of `DoitMain.run` -/
 def exitCode (s : Sys) : Nat :=
   match s.susp with
-  | .err _ => 3
+  | .err .dupTarget => 2       -- InvalidTask is caught by `run_all`: `runtime_error`, result ERROR
+  | .err _ => 3                -- everything else reaches `DoitMain.run`
   | _ => s.final
 
 /-! ### the statements of C15 as decidable predicates over an event list (newest first).
